@@ -47,12 +47,12 @@ PROPS['C05'] = {
                    'anywhere, long and short operator spellings, wild-cards / domains only in extended mode) or an error, and (ii) the parser accepts '
                    'exactly the documented grammar and builds the unique tree it dictates.'),
     'level_note': ('Trusted: Verus/Z3, vstd, mechanical extraction + logged rewrite rules, derive(Clone/PartialEq), Display tables, '
-                   'the four index_of_first* helpers (Iterator::position). Formulae with fewer than 2^32 tokens.'),
+                   'R-position (Iterator::position as its defining loop). Formulae with fewer than 2^32 tokens.'),
     'explanation': ('Each level of the recursive-descent parser (parse_1_hybrid .. parse_9_terminal_and_parentheses, '
                     'parse_hctl_tokens) is proved, for every token sequence, to return Ok(tree) exactly when the grammar '
                     'function sp_* of spec/grammar.rs (written from the property statement) derives the sequence, with '
                     'view(tree) equal to the unique derivation; Err otherwise. Recursion is proved terminating.'),
-    'trusted': ['index_of_first, index_of_first_hybrid, index_of_first_binary_temp, index_of_first_unary (Iterator::position with a closure): assumed to return the first index whose token satisfies the predicate',
+    'trusted': ['R-position: `X.iter().position(F)` is verified as the explicit first-match loop that defines Iterator::position (index_of_first* are proved, no longer assumed)',
                 'prelude/lex_model.rs: Peekable<Chars> modelled as the ghost sequence of remaining characters (next / peek), char::is_alphanumeric = uninterpreted table with its ASCII part spelled out, R-strcat / R-collect / R-peekable / R-letchain / R-refpat rewrites'],
 }
 
